@@ -13,8 +13,14 @@ trap cleanup EXIT
 rmdir "$WT"; git -C /repo worktree add -q --detach "$WT" HEAD || exit 2
 # carry uncommitted /repo changes? no: the scratch tree is HEAD + patch.
 cd "$WT" || exit 2
-if ! git apply $REV --check "$PATCH" 2>/dev/null; then echo "PATCH-DOES-NOT-APPLY $PATCH"; exit 3; fi
-git apply $REV "$PATCH"
+if git apply $REV --check "$PATCH" 2>/dev/null; then
+  git apply $REV "$PATCH"
+elif [ -z "$REV" ] && patch -p1 -F3 -s --dry-run < "$PATCH" >/dev/null 2>&1; then
+  # the patch predates later fix commits: context lines moved, apply with fuzz
+  patch -p1 -F3 -s < "$PATCH"; find . -name '*.orig' -delete
+else
+  echo "PATCH-DOES-NOT-APPLY $PATCH"; exit 3
+fi
 export GOFLAGS=-mod=mod GOPROXY=off GOSUMDB=off GOTOOLCHAIN=local
 if ! go build ./... 2>/dev/null; then echo "DOES-NOT-BUILD $PATCH"; exit 4; fi
 cd /verif
